@@ -53,6 +53,13 @@ def g_mcase(case):
             ops.append("MGet %s %s" % (g_path(op[1], table), g_default(d, table)))
         elif k == 'find':
             ops.append("MFind %s" % g_path(op[1], table))
+        elif k == 'setfrom':
+            table, vc = label_tree(op[2], table, vc)
+            ops.append("MSetFrom %s %s %s" % (g_path(op[1], table), g_json(op[2], table), g_bool(op[3])))
+        elif k == 'popfrom':
+            if op[2] is not None:
+                table, vc = label_tree(op[2][0], table, vc)
+            ops.append("MPopFrom %s %s" % (g_path(op[1], table), g_optjson(op[2], table)))
         else:
             raise ValueError(k)
     return "{| m_doc0 := %s; m_nl0 := %s; m_ops := %s |}" % (g_json(case['doc'], table), g_nat(n), g_list(ops))
@@ -152,6 +159,27 @@ def gen_mcase(rng, kinds=('set', 'cascade', 'pop', 'match'), nops=None, run_impl
     nheld = 0
     for _ in range(nops):
         kind = rng.choice(kinds)
+        if rng.random() < 0.12:
+            # hold a container of the document, then use that Match as the data source of set_ / pop (C09-m5)
+            conts = [loc for loc, v in collect_nodes(shadow) if isinstance(v, (dict, list))]
+            if conts:
+                loc = rng.choice(conts)
+                node = shadow
+                for n in loc:
+                    node = node[n]
+                rel = gen_target(rng, node, cascade_bias='cascade' in kinds)
+                hold = ('hold', loc_to_path(loc), 0)
+                if 'pop' in kinds and kind == 'pop':
+                    op2 = ('popfrom', rel, None if rng.random() < 0.6 else (gen_value(rng),))
+                    eq = ('pop', loc_to_path(loc) + list(rel), op2[2])
+                else:
+                    op2 = ('setfrom', rel, gen_value(rng), 'cascade' in kinds)
+                    eq = ('set', loc_to_path(loc) + list(rel), op2[2], op2[3], False)
+                ops += [hold, op2]
+                nheld += 1
+                if run_impl is not None:
+                    shadow = run_impl(shadow, eq)
+                continue
         if 'cascade' in kinds and rng.random() < 0.08:
             # create through a stored path, remove the branch, create again through the same path object
             p = gen_target(rng, shadow, cascade_bias=True)
@@ -245,6 +273,27 @@ def gen_mcase(rng, kinds=('set', 'cascade', 'pop', 'match'), nops=None, run_impl
         ops.append(op)
         if run_impl is not None:
             shadow = run_impl(shadow, op)
+        if op[0] == 'hold' and op[2] == 0 and all(s[0] in ('key', 'idx') for s in op[1]) and rng.random() < 0.5:
+            # the Match just held as data source of an assignment / removal (set_ / pop accept a Match; C09-m5)
+            node = shadow
+            try:
+                for s in op[1]:
+                    node = node[s[1]]
+            except (KeyError, IndexError, TypeError):
+                node = None
+            if isinstance(node, (dict, list)):
+                rel = gen_target(rng, node, cascade_bias='cascade' in kinds)
+                if rng.random() < 0.15:
+                    rel = odd_leaf(rng, rel)
+                if rng.random() < 0.7:
+                    op2 = ('setfrom', rel, gen_value(rng), 'cascade' in kinds or rng.random() < 0.3)
+                    eq = ('set', list(op[1]) + list(rel), op2[2], op2[3], False)
+                else:
+                    op2 = ('popfrom', rel, None if rng.random() < 0.6 else (gen_value(rng),))
+                    eq = ('pop', list(op[1]) + list(rel), op2[2])
+                ops.append(op2)
+                if run_impl is not None:
+                    shadow = run_impl(shadow, eq)
     return {'doc': doc, 'ops': ops}
 
 
